@@ -131,7 +131,7 @@ fn to_assets(h: &Holdings, parent_paths: &[bool]) -> Result<Assets, Failure> {
 impl Check for C17 {
     fn id(&self) -> &'static str { "C17" }
     fn rule(&self) -> String {
-        "case = definite descriptor (hex keys with/without origin, xpub-derived keys) x holdings: per key a CanSign (ecdsa on/off, taproot key_spend on/off, script_spend None/Any/Single/Many, sighash_default on/off) offered as an exact key source or as the parent path (plus decoy sources two or more levels above keys that are NOT held: they must give no capability), a subset of preimages, optional maximum absolute / relative lock in either unit x {into_plan, into_plan_mall}. Oracles: (1) a plan exists iff get_satisfaction(_mall) succeeds with a satisfier that has exactly the holdings' capabilities (locks answered from the maxima); (2) in a transaction whose nLockTime/nSequence are the plan's reported locks (0 / non-final when none), with real signatures, Plan::satisfy validates in the reference interpreter under standardness flags and equals get_satisfaction byte for byte; (3) every reported lock is necessary: with lock-1, with the other unit, and with no lock (signatures re-made) the completed plan fails; (4) announced witness/scriptSig sizes are not smaller than the real ones. Non-trivial = plans that use a time lock, or holdings that offer more than needed, or leaf-restricted taproot keys; distinct by (descriptor, holdings, mode).".into()
+        "case = definite descriptor (hex keys with/without origin, xpub-derived keys) x holdings: per key a CanSign (ecdsa on/off, taproot key_spend on/off, script_spend None/Any/Single/Many, sighash_default on/off) offered as an exact key source or as the parent path (plus decoy sources two or more levels above keys that are NOT held: they must give no capability), a subset of preimages, optional maximum absolute / relative lock in either unit x {into_plan, into_plan_mall}. Oracles: (1) a plan exists iff get_satisfaction(_mall) succeeds with a satisfier that has exactly the holdings' capabilities (locks answered from the maxima); (2) in a transaction whose nLockTime/nSequence are the plan's reported locks (0 / non-final when none), with real signatures, Plan::satisfy validates in the reference interpreter under standardness flags and equals get_satisfaction byte for byte; (2b) completing the plan with a satisfier that lacks one of the signatures it uses returns an error or something that still validates; (3) every reported lock is necessary: with lock-1, with the other unit, and with no lock (signatures re-made) the completed plan fails; (4) announced witness/scriptSig sizes are not smaller than the real ones. Non-trivial = plans that use a time lock, or holdings that offer more than needed, or leaf-restricted taproot keys; distinct by (descriptor, holdings, mode).".into()
     }
     fn assumptions(&self) -> Vec<String> { vec!["holdings are mapped to Assets by the harness as (master fingerprint, full path) or (master fingerprint, parent path) key sources".into()] }
     fn lanes(&self, tier: Tier) -> Vec<(&'static str, usize, usize)> {
@@ -393,6 +393,42 @@ impl Check for C17 {
                 Err(e) => return fail("satisfier-fails-on-plan-tx", format!("get_satisfaction fails on the plan's transaction: {}", e)),
             }
         }
+        // ---- (2b) completing the plan with LESS than it was planned with: whatever comes back
+        // as Ok must still be a valid spend (the expected answer is an error)
+        {
+            let mut t = make_tx(&scripts.spk, lock, seq, 1, 0);
+            let mut sigs = sign_real(&d, &all_world(lock, seq), &t).map_err(|e| Failure { sig: "sign".into(), msg: e })?;
+            // drop one signature that the witness uses (or a preimage when it uses none)
+            let used_e: Vec<Vec<u8>> = sigs.ecdsa.iter().filter(|(_, sg)| wit.contains(&sg.to_vec()) || pushes_contain(ss.as_bytes(), &sg.to_vec())).map(|(k, _)| k.clone()).collect();
+            let used_l: Vec<([u8; 32], [u8; 32])> = sigs.tap_leaf.iter().filter(|(_, sg)| wit.contains(&sg.to_vec())).map(|(k, _)| *k).collect();
+            let mut dropped = false;
+            if !used_e.is_empty() {
+                let k = src.pick(&used_e).clone();
+                sigs.ecdsa.remove(&k);
+                dropped = true;
+            } else if !used_l.is_empty() {
+                let k = *src.pick(&used_l);
+                sigs.tap_leaf.remove(&k);
+                dropped = true;
+            } else if sigs.tap_key.is_some() && wit.len() == 1 {
+                sigs.tap_key = None;
+                dropped = true;
+            }
+            if dropped {
+                let hs = HoldSat { h: &h, sigs: &sigs, ctx };
+                if let Ok((w2, s2)) = guard("Plan::satisfy (partial)", || plan.satisfy(&hs))? {
+                    t.tx.input[0].witness = Witness::from_slice(&w2);
+                    t.tx.input[0].script_sig = s2.clone();
+                    if let Err(e) = verify_input(&t.tx, 0, &t.prevouts, &Flags::STANDARD, &secp) {
+                        return fail(
+                            &format!("plan-partial-completion-ok/{}", d.kind()),
+                            format!("Plan::satisfy returned Ok with a satisfier that lacks a signature the plan uses; the result does not validate ({:?}): witness {:?}", e, w2.iter().map(|x| x.len()).collect::<Vec<_>>()),
+                        );
+                    }
+                }
+                rep.class("partial-completion-tried");
+            }
+        }
         // ---- (3) necessity
         let mut variants: Vec<(u32, u32, String)> = Vec::new();
         if let Some(a) = abs {
@@ -443,4 +479,12 @@ impl Check for C17 {
         }
         Ok(())
     }
+}
+
+
+fn pushes_contain(script: &[u8], item: &[u8]) -> bool {
+    if item.is_empty() {
+        return false;
+    }
+    script.windows(item.len()).any(|w| w == item)
 }
